@@ -3,12 +3,16 @@ spec/QuorumDefs.tla, spec/Quorum_proofs.tla (TLAPS), spec/Quorum.tla (TLC + tabl
 
   1. P-PROOF  tlapm proves, for ALL N >= 1 and all finite validator sets: 2*BftThr(N)-N > F(N), 2*GovThr(N)-N > F(N),
               GovThr(N) = ceil(2N/3), thresholds attainable, |A \\cap B| >= |A|+|B|-|V|, and the three set-level
-              intersection theorems (block/block, gov/gov, block/gov).  Every obligation must be discharged.
+              intersection theorems (block/block, gov/gov, block/gov) and "two disjoint sets never both reach the block
+              threshold".  Every obligation must be discharged.
   2. P-MC     TLC re-checks the arithmetic for N = 1..10000 and the set-level statement for all pairs of subsets of
               validator sets up to 8 (quick) / 10 (thorough) members, on the same definitions (QuorumDefs).
   3. binding  TLC prints the table (n, f, bft, gov, legacy, commit); the driver measures on the real code the least
               number of distinct approvers at which each implemented expression answers "reached":
-                vbft getCommitConsensus (all n <= 10000; several message shapes for small n),
+                vbft getCommitConsensus (all n <= 10000; several message shapes for small n; and, for n <= 400 plus a sample,
+                under four configured values of the consensus parameter C - (N-1)/3, N/3 as GenesisChainConfig computes it,
+                0, f+1 - with 0..N-1 commits for the empty block in two placements: the quorum must not move; two disjoint
+                groups of participants must never reach commit consensus),
                 node_manager.CheckConsensusSigns, consensus_vote.CheckVotes, signature_manager.CheckSigns (sequences of
                 real calls and state injection), ledger verifyHeader (solo branch n - (n-1)/3; vbft legacy rule; vbft
                 n - (n-1)/3 above header height 20,000,000 through the padded header index, thorough tier).
@@ -44,7 +48,7 @@ def run(ctx):
             ctx.fail("tlapm gave no obligation count (rc=%d):\n%s" % (p.returncode, out[-3000:]))
     ctx.note("tlapm: %d/%d obligations in %.1fs" % (discharged, obligations, time.time() - t))
     theorems = len(re.findall(r"^(THEOREM|LEMMA)\b", open(os.path.join(pdir, "Quorum_proofs.tla")).read(), re.M))
-    if p.returncode != 0 or discharged != obligations or obligations < 40 or theorems < 8:
+    if p.returncode != 0 or discharged != obligations or obligations < 60 or theorems < 9:
         # an unproved obligation is a defect of the proof script, not of the code: no verdict
         ctx.fail("TLAPS proof incomplete: %d/%d obligations, %d theorems, rc=%d\n%s" % (discharged, obligations, theorems, p.returncode, out[-3000:]))
     # ---- 2./3. TLC: arithmetic + table
@@ -80,18 +84,21 @@ def run(ctx):
         distinct.add((o["site"], o["shape"], n))
         fam = o["site"].split("-")[0] if o["site"].startswith("ledger") else o["site"]
         problem = None
-        if o.get("note"):
-            problem = "note:" + o["note"][:60]
+        if o["site"] == "commit-disjoint":
+            if o["below"] or not o["at"]:
+                problem = "disjoint-group-reached-consensus"
         elif o["below"]:
             problem = "reached-below-threshold"
         elif not o["at"]:
             problem = "not-reached-at-threshold"
         elif o["least"] >= 0 and o["least"] != o["expect"]:
             problem = "least-differs"
+        elif o.get("note"):
+            problem = "note:" + o["note"][:60]
         if problem:
             _viol(ctx, "threshold:%s:%s:%s" % (o["site"], o["shape"], problem.split(":")[0]), {"observed": o, "spec_row": byn.get(n)},
                           replay={"kind": "c42-threshold", "observed": o, "spec_row": byn.get(n)})
-    need_sites = ["commit", "consensusSigns", "votes", "signs", "ledger-solo-bft-hdr", "ledger-solo-bft-sub", "ledger-vbft-legacy-hdr"]
+    need_sites = ["commit", "commit-cfg", "commit-disjoint", "consensusSigns", "votes", "signs", "ledger-solo-bft-hdr", "ledger-solo-bft-sub", "ledger-vbft-legacy-hdr"]
     if not q:
         need_sites += ["ledger-vbft-bft-hdr", "ledger-vbft-bft-sub"]
     for s in need_sites:
